@@ -19,12 +19,16 @@ pub struct Scenario {
     pub expiries: Vec<u64>,
     /// use `Searcher::new()` instead of the state-reset hook
     pub really_new: bool,
+    /// the same interruption points on a clock that runs evenly (1 ms per clock read, budget
+    /// j ms) instead of jumping past a far deadline at read j: an engine that acts on a
+    /// fraction of its budget (winds down at 95 %) sees the time in between
+    pub gradual: bool,
 }
 
 impl Scenario {
     pub fn to_json(&self) -> Value {
         json!({"fen": self.fen, "depth": self.depth, "key_seed": self.key_seed,
-               "expiries": self.expiries, "really_new": self.really_new})
+               "expiries": self.expiries, "really_new": self.really_new, "gradual": self.gradual})
     }
     pub fn from_json(v: &Value) -> Option<Scenario> {
         Some(Scenario {
@@ -33,6 +37,7 @@ impl Scenario {
             key_seed: v["key_seed"].as_u64().unwrap_or(0),
             expiries: v["expiries"].as_array()?.iter().filter_map(|x| x.as_u64()).collect(),
             really_new: v["really_new"].as_bool().unwrap_or(false),
+            gradual: v["gradual"].as_bool().unwrap_or(false),
         })
     }
 }
@@ -59,8 +64,13 @@ pub fn run_scenario(bench: &mut Bench, sc: &Scenario) -> ScenarioOutcome {
     let m = bench.pos.as_ref().unwrap().m_root[sc.depth as usize];
     let mut st = SimState::new(sc.key_seed, 0);
     st.ev(&format!("cfg c06 fen={} depth={} key_seed={} expiries={:?} new={}", sc.fen, sc.depth, sc.key_seed, sc.expiries, sc.really_new));
-    for (i, j) in sc.expiries.iter().enumerate() {
-        st.clock.forced_expiry.push((i as u64, *j));
+    if sc.gradual {
+        st.clock.cost_read_ns = 1_000_000;
+        st.clock.cost_node_ns = 0;
+    } else {
+        for (i, j) in sc.expiries.iter().enumerate() {
+            st.clock.forced_expiry.push((i as u64, *j));
+        }
     }
     st.max_nodes_per_search = 50_000_000;
     let sess = Session::new(st);
@@ -72,7 +82,8 @@ pub fn run_scenario(bench: &mut Bench, sc: &Scenario) -> ScenarioOutcome {
     }
     let rep0 = bench.searcher.verif_repetition_len();
     for (i, j) in sc.expiries.iter().enumerate() {
-        let r = sess.search(&mut bench.searcher, &board, sc.depth, Some(HUGE_LIMIT));
+        let limit = if sc.gradual { std::time::Duration::from_millis(*j) } else { HUGE_LIMIT };
+        let r = sess.search(&mut bench.searcher, &board, sc.depth, Some(limit));
         match &r.outcome {
             Outcome::Returned => {}
             o => {
@@ -634,8 +645,14 @@ pub fn run(ctx: &Ctx) -> i32 {
                     key_seed,
                     expiries: vec![*j],
                     really_new: false,
+                    gradual: false,
                 })
                 .collect();
+            // a third of the single interruption points again on an evenly running clock
+            let gradual_points: Vec<u64> = points.iter().filter(|_| rng.chance(1, 3)).cloned().collect();
+            for j in gradual_points {
+                scenarios.push(Scenario { fen: fen.clone(), depth, key_seed, expiries: vec![j], really_new: false, gradual: true });
+            }
             // sequences of two and three interruptions, other key sets, a really fresh engine
             let multi = match ctx.tier {
                 Tier::Quick => 12,
@@ -650,6 +667,7 @@ pub fn run(ctx: &Ctx) -> i32 {
                     key_seed: if k % 3 == 0 { rng.next_u64() } else { key_seed },
                     expiries,
                     really_new: k % 6 == 5,
+                    gradual: k % 4 == 1,
                 });
             }
             let mut first_violation_per_class: std::collections::BTreeMap<String, ()> = Default::default();
@@ -673,7 +691,10 @@ pub fn run(ctx: &Ctx) -> i32 {
                 if sc.really_new {
                     res.probes.add("really_new_searcher_scenarios", 1);
                 }
-                res.distinct.push(hash_str(&format!("{}|{}|{:?}", sc.fen, sc.depth, sc.expiries)));
+                if sc.gradual {
+                    res.probes.add("scenarios_on_an_evenly_running_clock", 1);
+                }
+                res.distinct.push(hash_str(&format!("{}|{}|{:?}|{}", sc.fen, sc.depth, sc.expiries, sc.gradual)));
                 for (class, detail) in o.violations {
                     if first_violation_per_class.insert(class.clone(), ()).is_none() {
                         res.violations.push(Violation {
